@@ -25,6 +25,8 @@ const verifDir = "/verif"
 
 var repoDir = "/repo"
 var maxPathsOverride int
+var tvRun, tvAgree int
+var tvNotes []string
 
 type ObSpec struct {
 	Name       string       `json:"name"`
@@ -42,6 +44,8 @@ type ObSpec struct {
 	Claim      string       `json:"claim"`
 	NoReplay   bool         `json:"no_replay"`
 	AssertSolver string     `json:"assert_solver"`
+	BMC        *sx.BMCSpec  `json:"bmc"`
+	NoLemmas   bool         `json:"no_lemmas"`
 	Params     map[string]int `json:"params"` // tier-dependent ints readable by harness via vparam (quick)
 	ParamsThorough map[string]int `json:"params_thorough"`
 }
@@ -77,6 +81,7 @@ type obResult struct {
 	Status  string // "discharged" | "violated" | "inconclusive"
 	Replays []replayResult
 	Params  map[string]int
+	BMC     *sx.BMCResult
 }
 
 type replayResult struct {
@@ -282,6 +287,9 @@ func cmdRun(args []string) int {
 			r.Status = "inconclusive"
 		}
 	}
+	if nviol == 0 && os.Getenv("VERIF_NO_TV") == "" {
+		tvRun, tvAgree, tvNotes = translatorValidation(spec, results, open)
+	}
 	wall := time.Since(t0).Seconds()
 	writeEvidence(spec, tier, seed, results, wall, inconc, nviol)
 	// summary
@@ -357,7 +365,7 @@ func runOb(eng *sx.Engine, o ObSpec, tier string, open map[string]bool, verbose 
 	res := &obResult{Spec: o}
 	t0 := time.Now()
 	fn := eng.Func(o.Pkg, o.Func)
-	if fn == nil {
+	if fn == nil && o.BMC == nil {
 		res.St.Inconclusive = []string{"harness function not found: " + o.Pkg + "." + o.Func}
 		return res
 	}
@@ -394,6 +402,7 @@ func runOb(eng *sx.Engine, o ObSpec, tier string, open map[string]bool, verbose 
 	if x.Cfg.MaxPaths == 0 {
 		x.Cfg.MaxPaths = 200000
 	}
+	x.Cfg.NoLemmas = o.NoLemmas
 	x.Cfg.AssertSolver = o.AssertSolver
 	x.Cfg.AssertTimeoutMs = to
 	budget := 25 * time.Minute
@@ -414,6 +423,15 @@ func runOb(eng *sx.Engine, o ObSpec, tier string, open map[string]bool, verbose 
 				}
 			}
 		}()
+		if o.BMC != nil {
+			pkg := eng.Pkgs[sx.ModulePath+"/"+o.Pkg]
+			if pkg == nil {
+				x.St.Inconclusive = append(x.St.Inconclusive, "package not loaded: "+o.Pkg)
+				return
+			}
+			res.BMC = x.BMCCheck(*o.BMC, pkg)
+			return
+		}
 		x.Run(fn)
 	}()
 	res.St = x.St
@@ -433,7 +451,11 @@ func runOb(eng *sx.Engine, o ObSpec, tier string, open map[string]bool, verbose 
 // Evidence
 
 func writeEvidence(spec Spec, tier string, seed int, results []*obResult, wall float64, inconc []string, nviol int) {
-	os.MkdirAll(filepath.Join(verifDir, "evidence"), 0o755)
+	evDir := filepath.Join(verifDir, "evidence")
+	if d := os.Getenv("VERIF_EVIDENCE_DIR"); d != "" {
+		evDir = d // seeded-change runs must not overwrite the committed evidence
+	}
+	os.MkdirAll(evDir, 0o755)
 	type obEv struct {
 		Name      string         `json:"name"`
 		Harness   string         `json:"harness"`
@@ -459,6 +481,7 @@ func writeEvidence(spec Spec, tier string, seed int, results []*obResult, wall f
 		Notes     map[string]int `json:"notes,omitempty"`
 		Known     map[string]string `json:"known_findings_hit,omitempty"`
 		Viol      []sx.Violation `json:"violations,omitempty"`
+		BMC       *sx.BMCResult  `json:"interleaving,omitempty"`
 		Replays   []string       `json:"replays,omitempty"`
 	}
 	var obl []obEv
@@ -474,7 +497,7 @@ func writeEvidence(spec Spec, tier string, seed int, results []*obResult, wall f
 		e := obEv{Name: r.Spec.Name, Harness: r.Spec.Pkg + "." + r.Spec.Func, Status: r.Status, Bound: r.Spec.Bound, Claim: r.Spec.Claim,
 			Paths: r.St.Paths, PathKinds: r.St.PathKinds, Forks: r.St.Forks, Steps: r.St.Steps, MaxUnwind: r.St.MaxUnwind, Unwind: r.Spec.Unwind,
 			Queries: r.Solver.Queries, Sat: r.Solver.Sat, Unsat: r.Solver.Unsat, Unknown: r.Solver.Unknown, SolverS: r.Solver.Seconds, WallS: r.Wall,
-			Solver: r.Spec.Solver, Stubs: r.St.StubsUsed, Notes: r.St.Notes, Known: r.St.KnownHit, Viol: r.St.Violations}
+			Solver: r.Spec.Solver, Stubs: r.St.StubsUsed, Notes: r.St.Notes, Known: r.St.KnownHit, Viol: r.St.Violations, BMC: r.BMC}
 		if r.Spec.AssertSolver != "" {
 			e.Solver = "z3 5.1.0 incremental (feasibility) + one-shot " + r.Spec.AssertSolver + " (assertions)"
 		}
@@ -540,7 +563,8 @@ func writeEvidence(spec Spec, tier string, seed int, results []*obResult, wall f
 		"rule":                          "evaluations = SMT queries discharged; a case is a symbolic path of the real code (a set of concrete inputs sharing one control-flow path), non-trivial if it contains at least one solver-decided branch; distinct paths are counted as forks+1 per obligation",
 		"states":                        totalPaths,
 		"transitions":                   totalSteps,
-		"traces_validated_against_impl": replays,
+		"traces_validated_against_impl": replays + tvAgree,
+		"translator_validation":         map[string]interface{}{"witness_models_replayed_natively": tvRun, "agreed": tvAgree, "notes": tvNotes, "what": "models found by the solver for vacuity witnesses are replayed through the same harness compiled natively against /repo (go test -tags verif -overlay); agreement = the native run reaches the end of the harness with no failed assertion or assumption"},
 		"samples":                       samples,
 		"explanation":                   "bounded symbolic execution of the real functions (SSA from /repo working tree) with SMT-decided assertions; see obligations[] for bounds",
 		"exhaustive":                    len(inconc) == 0,
@@ -574,7 +598,7 @@ func writeEvidence(spec Spec, tier string, seed int, results []*obResult, wall f
 		"violations":  nviol,
 	}
 	data, _ := json.MarshalIndent(ev, "", " ")
-	os.WriteFile(filepath.Join(verifDir, "evidence", spec.Property+".json"), data, 0o644)
+	os.WriteFile(filepath.Join(evDir, spec.Property+".json"), data, 0o644)
 }
 
 // ---------------------------------------------------------------------------
@@ -714,4 +738,156 @@ func cmdReplay(args []string) int {
 	}
 	fmt.Println("NOT REPRODUCED")
 	return 0
+}
+
+// translatorValidation replays up to two solver-found witness models per package natively:
+// the same harness, compiled by the Go toolchain against the real code, must run through
+// without a failed assertion or assumption. Obligations that depend on executor-only stubs
+// (no_replay, loop cuts) are skipped. Disagreements are recorded in the evidence, they do
+// not change the verdict.
+func translatorValidation(spec Spec, results []*obResult, open map[string]bool) (run, agree int, notes []string) {
+	type item struct {
+		pkg, fn, ob string
+		model       map[string]uint64
+		params      map[string]int
+	}
+	perPkg := map[string][]item{}
+	for _, r := range results {
+		if r == nil || r.Spec.NoReplay || len(r.Spec.Cuts) > 0 || r.Spec.AllowPanic || r.Status != "discharged" {
+			continue
+		}
+		if len(perPkg[r.Spec.Pkg]) >= 2 {
+			continue
+		}
+		for _, m := range r.St.Samples {
+			perPkg[r.Spec.Pkg] = append(perPkg[r.Spec.Pkg], item{r.Spec.Pkg, r.Spec.Func, r.Spec.Name, m, r.Params})
+			break
+		}
+	}
+	for pkg, items := range perPkg {
+		tmp, err := os.MkdirTemp("", "verif-tv-")
+		if err != nil {
+			continue
+		}
+		var calls strings.Builder
+		for i, it := range items {
+			var openList []string
+			for k := range open {
+				openList = append(openList, k)
+			}
+			mf := filepath.Join(tmp, fmt.Sprintf("model%d.json", i))
+			data, _ := json.Marshal(map[string]interface{}{"Model": it.model, "Open": openList, "Params": it.params})
+			os.WriteFile(mf, data, 0o644)
+			fmt.Fprintf(&calls, "\tvtvRun(%q, %q, %s)\n", it.ob, mf, it.fn)
+		}
+		test := `
+
+import (
+	"fmt"
+	"os"
+	"testing"
+)
+
+func vtvRun(ob, model string, f func()) {
+	os.Setenv("VERIF_MODEL", model)
+	vmodel = nil
+	vcount = map[string]int{}
+	vghosts = map[string]int{}
+	defer func() {
+		r := recover()
+		fmt.Printf("VTV-OUTCOME %s: %v\n", ob, r)
+	}()
+	f()
+}
+
+func TestVerifTV(t *testing.T) {
+` + calls.String() + `}
+`
+		ok, out := runNativeTest(tmp, pkg, test, "^TestVerifTV$", "")
+		_ = ok
+		for _, it := range items {
+			run++
+			line := ""
+			for _, l := range strings.Split(out, "\n") {
+				if strings.HasPrefix(l, "VTV-OUTCOME "+it.ob+": ") {
+					line = strings.TrimPrefix(l, "VTV-OUTCOME "+it.ob+": ")
+				}
+			}
+			if line == "<nil>" {
+				agree++
+			} else {
+				if line == "" {
+					line = "no outcome (" + lastLines(out, 3) + ")"
+				}
+				notes = append(notes, it.ob+": native run differs: "+line)
+			}
+		}
+		os.RemoveAll(tmp)
+	}
+	return
+}
+
+// runNativeTest compiles the harness overlay plus the given test body (without package
+// clause) into package pkg of the repo and runs it.
+func runNativeTest(tmp, pkg, testBody, runPat, modelEnv string) (bool, string) {
+	repl := map[string]string{}
+	hroot := filepath.Join(verifDir, "harness")
+	pkgName := map[string]string{}
+	filepath.Walk(hroot, func(p string, info os.FileInfo, err error) error {
+		if err != nil || info.IsDir() {
+			return nil
+		}
+		base := filepath.Base(p)
+		if !strings.HasPrefix(base, "zz_verif_") || !strings.HasSuffix(base, ".go") {
+			return nil
+		}
+		rel, _ := filepath.Rel(hroot, filepath.Dir(p))
+		repl[filepath.Join(repoDir, rel, base)] = p
+		src, _ := os.ReadFile(p)
+		for _, l := range strings.Split(string(src), "\n") {
+			l = strings.TrimSpace(l)
+			if strings.HasPrefix(l, "package ") {
+				pkgName[rel] = strings.Fields(l)[1]
+				break
+			}
+		}
+		return nil
+	})
+	i := 0
+	for rel, name := range pkgName {
+		i++
+		sp := filepath.Join(tmp, fmt.Sprintf("shim%d.go", i))
+		os.WriteFile(sp, []byte(sx.ShimSource(name, true)), 0o644)
+		repl[filepath.Join(repoDir, rel, "zz_verif_shim.go")] = sp
+		ents, _ := os.ReadDir(filepath.Join(repoDir, rel))
+		for _, e := range ents {
+			if strings.HasSuffix(e.Name(), "_test.go") {
+				repl[filepath.Join(repoDir, rel, e.Name())] = ""
+			}
+		}
+	}
+	tp := filepath.Join(tmp, "native_test.go")
+	os.WriteFile(tp, []byte("package "+pkgName[pkg]+testBody), 0o644)
+	repl[filepath.Join(repoDir, pkg, "zz_verif_native_test.go")] = tp
+	ov, _ := json.Marshal(map[string]interface{}{"Replace": repl})
+	ovp := filepath.Join(tmp, "overlay.json")
+	os.WriteFile(ovp, ov, 0o644)
+	cmd := exec.Command("go", "test", "-tags", "verif", "-vet=off", "-count=1", "-overlay", ovp, "-run", runPat, "-v", "./"+pkg)
+	cmd.Dir = repoDir
+	cmd.Env = append(os.Environ(), "GOFLAGS=-mod=mod", "GOPROXY=off", "GOSUMDB=off", "GOTOOLCHAIN=local")
+	if modelEnv != "" {
+		cmd.Env = append(cmd.Env, "VERIF_MODEL="+modelEnv)
+	}
+	done := make(chan struct{})
+	var out []byte
+	go func() { out, _ = cmd.CombinedOutput(); close(done) }()
+	select {
+	case <-done:
+	case <-time.After(8 * time.Minute):
+		if cmd.Process != nil {
+			cmd.Process.Kill()
+		}
+		<-done
+	}
+	return cmd.ProcessState != nil && cmd.ProcessState.Success(), string(out)
 }
